@@ -190,9 +190,49 @@ func rowEstimate(dims map[string]interface{}, nvals int) int {
 	return n + 8*nvals
 }
 
+// genWebPanic: a dimension that is a string in most rows and a number in one, under SUBSTR in
+// the WHERE clause: the scan's row processing panics part-way.  Implementation-only oracle: the
+// response must not be a 200 with a truncated result.
+func (rn *runner) genWebPanic(r *hk.Rng) *Case {
+	sc := &dbScenario{Div: 1, Mem0: false, KeyDim: "k", Mem: []Row{}, S: true, Odd: []int{}}
+	sc.File = genRows(r, 9, 0)
+	if len(sc.File) < 3 {
+		sc.File = []Row{{K: 3, V: []int{2, 1}}, {K: 5, V: []int{1}}, {K: 9, V: []int{4}}, {K: 11, V: []int{1, 1}}}
+	}
+	if r.Chance(4, 5) {
+		sc.Odd = []int{hk.Pick(r, sc.File).K}
+	}
+	sc.SQL = "SELECT * FROM t WHERE SUBSTR(s, 0, 1) = 'x'"
+	e, err := rn.buildDB(sc)
+	if err != nil {
+		rn.ctx.Res.Inconclusive++
+		rn.ctx.Res.Note("web scenario could not be built: %v", err)
+		return nil
+	}
+	ord, err := e.scanOrder(false)
+	if err != nil {
+		rn.ctx.Res.Inconclusive++
+		return nil
+	}
+	tp, err := tablePlan(sc, ord)
+	if err != nil {
+		rn.ctx.Res.Inconclusive++
+		return nil
+	}
+	plan := map[string]interface{}{"op": "flatten", "p": map[string]interface{}{"op": "filter", "mod": 0, "rem": 0, "errKey": nil, "panicKeys": sc.Odd, "p": tp}}
+	c := &Case{Engine: "report", Op: "run", Mode: "web", Caller: "web", Plan: plan, Fault: Fault{Kind: "none"},
+		X: map[string]interface{}{"db": sc, "web": &webScenario{}, "oracleOnly": true}}
+	fillExpect(c)
+	rn.ctx.Res.Hit(fmt.Sprintf("web:panic:where-substr:odd-rows=%d", len(sc.Odd)))
+	return normalise(c)
+}
+
 func (rn *runner) genWeb(r *hk.Rng) *Case {
 	if rn.webs == nil {
 		rn.webs = &webEnv{finalSizes: map[string]int{}}
+	}
+	if r.Chance(1, 4) {
+		return rn.genWebPanic(r)
 	}
 	sc := &dbScenario{Div: r.Range(1, 3), Mem0: false, KeyDim: "k", Mem: []Row{}}
 	sc.File = genRows(r, 9, 0)
@@ -437,5 +477,28 @@ func genRPC(r *hk.Rng) *Case {
 	c.Mode, c.Caller = "rpc", "rpc"
 	// the rpc client's callback has no faults of its own here
 	c.Fault = Fault{Kind: "none"}
+	if r.Chance(1, 6) {
+		// the query's row processing PANICS on one row: a filter directly over the source whose
+		// expression panics on that key — on the server's query goroutine, under rpc/server Query's
+		// recover boundary.  Expected: the stream ends with an error.
+		m := c.Plan
+		for m != nil && m["op"] != "mock" {
+			m, _ = m["p"].(map[string]interface{})
+		}
+		if rows := jRows(m["rows"]); m != nil && len(rows) > 0 {
+			inner := map[string]interface{}{}
+			for k, v := range m {
+				inner[k] = v
+			}
+			for k := range m {
+				delete(m, k)
+			}
+			m["op"], m["mod"], m["rem"], m["errKey"], m["p"] = "filter", 0, 0, nil, inner
+			m["panicKeys"] = []interface{}{float64(hk.Pick(r, rows).K)}
+			c.X = map[string]interface{}{"panic": "filter"}
+			fillExpect(c)
+			c = normalise(c)
+		}
+	}
 	return c
 }
